@@ -203,6 +203,8 @@ def extra_checks(pid, tier, seed):
     pool; this clause is exercised directly on the implementation)."""
     if pid in ("C04", "C12"):
         return _percall_failures(pid, tier, seed)
+    if pid == "C09":
+        return _constructor_rejections()
     if pid != "C11":
         return []
     import asyncio
@@ -294,6 +296,45 @@ def extra_checks(pid, tier, seed):
         asyncio.run(go())
         if fails:
             break
+    return fails
+
+
+def _constructor_rejections():
+    """C09 at construction time (the model starts from an already constructed pool): a negative
+    pool size and, for SimpleTaskPool, a function that is not a coroutine function are rejected
+    with the documented errors."""
+    import lockstep
+    lockstep._init_worker()
+    from asyncio_taskpool import exceptions
+    from asyncio_taskpool.pool import SimpleTaskPool, TaskPool
+    fails = []
+
+    async def co():
+        return None
+
+    def plain():
+        return None
+
+    for what, make, exc in (
+            ("TaskPool(pool_size=-1)", lambda: TaskPool(pool_size=-1), ValueError),
+            ("SimpleTaskPool(func, pool_size=-3)", lambda: SimpleTaskPool(co, pool_size=-3), ValueError),
+            ("SimpleTaskPool(<plain function>)", lambda: SimpleTaskPool(plain),
+             exceptions.NotCoroutineFunction),
+            ("SimpleTaskPool(<lambda>)", lambda: SimpleTaskPool(lambda: 1),
+             exceptions.NotCoroutineFunction)):
+        try:
+            make()
+            fails.append({"what": f"{what} was accepted", "expected": exc.__name__})
+        except exc:
+            pass
+        except Exception as e:     # noqa: BLE001
+            fails.append({"what": f"{what} raised {type(e).__name__}", "expected": exc.__name__})
+    for what, make in (("TaskPool(pool_size=0)", lambda: TaskPool(pool_size=0)),
+                       ("SimpleTaskPool(coroutine function)", lambda: SimpleTaskPool(co))):
+        try:
+            make()
+        except Exception as e:     # noqa: BLE001
+            fails.append({"what": f"{what} raised {type(e).__name__}", "expected": "accepted"})
     return fails
 
 
